@@ -52,8 +52,8 @@ def run(ck):
     diff = 0
     dist = {}
     for ca, cb in zip(a, b):
-        ga = (ca.got[0], ca.got[1])
-        gb = (cb.got[0], cb.got[1])
+        ga = (ca.got[0], [tuple(e[:4]) for e in ca.got[1]])
+        gb = (cb.got[0], [tuple(e[:4]) for e in cb.got[1]])
         dist[ca.got[0] + "/" + cb.got[0]] = dist.get(ca.got[0] + "/" + cb.got[0], 0) + 1
         if ga != gb:
             diff += 1
